@@ -173,8 +173,10 @@ class C11(LoopSpec):
         from real.run import nt_contract
 
         r = nt_contract()
-        return dict(obligations=0, discharged=0, validated=r["validated"], problems=r["problems"], samples=r.get("samples", []),
-                    info=dict(nt_stub_contract_observations_matching_real_ntcore=r["validated"]))
+        l = lcm.validate_against_real(seed, 6 if tier == "quick" else 24)
+        return dict(obligations=0, discharged=0, validated=r["validated"] + l["validated"], problems=r["problems"] + l["problems"],
+                    samples=r.get("samples", []) + l["samples"],
+                    info=dict(nt_stub_contract_observations_matching_real_ntcore=r["validated"], loop_scripts_identical_in_stub_and_real_world=l["validated"], notes=l["notes"]))
 
     def path_fn(self, c, job):
         H = run(c, job)
